@@ -82,6 +82,37 @@ theorem step_add (a b : Nat) (av : AV) (h : astep signed env n (.add a b) = some
   · cases h
 
 
+theorem step_addA (a b : Nat) (av : AV) (h : astep signed env n (.addA a b) = some av)
+    (hρ : ρ n = evalOp false signed ρ (.addA a b)) (hside : ρ a + ρ b ≤ maxV signed) :
+    SoundAV ρ av (ρ n) ∧ evalOp true signed ρ (.addA a b) = evalOp false signed ρ (.addA a b) := by
+  simp only [astep] at h
+  split at h
+  · next hab =>
+    have hx := henv a hab.1; have hy := henv b hab.2
+    simp only [evalOp, Bool.false_eq_true, if_false, if_true] at hρ ⊢
+    have l1 := hx.lo; have l2 := hy.lo; have u1 := hx.hi; have u2 := hy.hi
+    have htz : (2 : Int) ^ (min (aget env n a).tz (aget env n b).tz) ∣ ρ a + ρ b :=
+      Int.dvd_add (pow_dvd_of_le _ _ _ (Nat.min_le_left _ _) hx.tz) (pow_dvd_of_le _ _ _ (Nat.min_le_right _ _) hy.tz)
+    split at h
+    · next hr =>
+      cases h
+      refine ⟨⟨?_, ?_, ?_, ?_, trivial⟩, mach_eq_of_range signed _ _ _ hr (by omega) (by omega)⟩
+      · dsimp only; omega
+      · dsimp only; omega
+      · dsimp only; rw [hρ]; exact htz
+      · dsimp only; rw [evalPoly_padd, hx.poly, hy.poly, hρ]
+    · split at h
+      · next hr =>
+        cases h
+        obtain ⟨r1, _⟩ := inRange_spec _ _ _ hr
+        refine ⟨⟨?_, ?_, ?_, ?_, trivial⟩, wrap_of_inRange signed _ (by omega) hside⟩
+        · dsimp only; omega
+        · dsimp only; omega
+        · dsimp only; rw [hρ]; exact htz
+        · dsimp only; rw [evalPoly_padd, hx.poly, hy.poly, hρ]
+      · cases h
+  · cases h
+
 theorem step_sub (a b : Nat) (av : AV) (h : astep signed env n (.sub a b) = some av)
     (hρ : ρ n = evalOp false signed ρ (.sub a b)) :
     SoundAV ρ av (ρ n) ∧ evalOp true signed ρ (.sub a b) = evalOp false signed ρ (.sub a b) := by
@@ -285,7 +316,19 @@ theorem step_low (a k : Nat) (q : Option Nat) (av : AV) (h : astep signed env n 
             have e2 : ρ q' = ρ a / 2 ^ k := by
               have := (henv q' hq').prov; rw [hprov] at this; exact this
             rw [evalPoly_psub, evalPoly_pscale, evalPoly_patom, hx.poly, hρ, Int.emod_def, e2]
-          · rw [evalPoly_patom]
+          · split
+            · next a0 k0 hpa =>
+              split
+              · next hc =>
+                obtain ⟨hq', hprov⟩ := hc
+                have e1 : ρ a = ρ a0 / 2 ^ k0 := by
+                  have := hx.prov; rw [hpa] at this; exact this
+                have e2 : ρ q' = ρ a / 2 ^ k := by
+                  have := (henv q' hq').prov; rw [hprov] at this
+                  rw [this, e1, pow_add, Int.ediv_ediv_of_nonneg (by positivity)]
+                rw [evalPoly_psub, evalPoly_pscale, evalPoly_patom, hx.poly, hρ, Int.emod_def, e2]
+              · rw [evalPoly_patom]
+            · rw [evalPoly_patom]
         · rw [evalPoly_patom]
   · cases h
 
@@ -525,11 +568,13 @@ theorem step_sub64 (a b c : Nat) (q : Option Nat) (av : AV) (h : astep signed en
 
 /-- one-step soundness, all ops -/
 theorem astep_sound (op : Op) (av : AV) (h : astep signed env n op = some av)
-    (hρ : ρ n = evalOp false signed ρ op) :
+    (hρ : ρ n = evalOp false signed ρ op)
+    (hside : ∀ a b, op = .addA a b → ρ a + ρ b ≤ maxV signed) :
     SoundAV ρ av (ρ n) ∧ evalOp true signed ρ op = evalOp false signed ρ op := by
   cases op with
   | const c => exact step_const signed ρ env n henv c av h hρ
   | add a b => exact step_add signed ρ env n henv a b av h hρ
+  | addA a b => exact step_addA signed ρ env n henv a b av h hρ (hside a b rfl)
   | sub a b => exact step_sub signed ρ env n henv a b av h hρ
   | mul a b => exact step_mul signed ρ env n henv a b av h hρ
   | shl a k q => exact step_shl signed ρ env n henv a k q av h hρ
